@@ -710,8 +710,6 @@ class VMF:
             else:
                 self.node_id.discard(node_id)
 
-        self.ent_id.discard(item.id)
-
     def add_brushes(self, brushes: Iterable['Solid']) -> None:
         """Add multiple brushes to the map."""
         self.brushes.extend(brushes)
